@@ -461,6 +461,8 @@ def gen_box(rng, f):
     hi = [l + side for l in lo]
     kind = rng.choice(["inside", "inside", "straddle", "enclose", "disjoint", "huge", "inf", "face", "face", "point",
                        "halfstep", "touch", "hdr"])
+    if geo["mode"] == "edge" and rng.random() < 0.3:
+        kind = "gridedge"
     dims = rng.choice([2, 3, 3])
     def frac(a, b, t):
         return a + (b - a) * t
@@ -470,6 +472,11 @@ def gen_box(rng, f):
             a, b = sorted([rng.randrange(0, 65) / 64.0, rng.randrange(0, 65) / 64.0])
             mins.append(frac(lo[i], hi[i], a))
             maxs.append(frac(lo[i], hi[i], b))
+    elif kind == "gridedge":
+        # the box starts one step beyond the last coordinate of the int32 grid (x = 2^31 with scale 1, offset 0) and
+        # touches the root cube there: the point at X = INT_MAX is a full step outside
+        mins = [float(2 ** 31), lo[1] - 1.0, lo[2] - 1.0]
+        maxs = [rng.choice([float(2 ** 31), float(2 ** 31 + 16), 1e30, math.inf]), hi[1] + 1.0, hi[2] + 1.0]
     elif kind == "straddle":
         mins = [frac(lo[i], hi[i], rng.choice([-0.5, -0.25, 0.25, 0.5])) for i in range(3)]
         maxs = [m + side * rng.choice([0.3, 0.5, 1.0]) for m in mins]
@@ -910,9 +917,10 @@ def check_one(f, q, reader=None):
         return ("query raises", impl[1])
     why = oracle(f, q, impl[1])
     if why:
-        kb = "nobox" if box is None else f"box{len(box[0])}d"
         cls = "missing point" if "not returned" in why else ("outside point" if "outside" in why else "wrong record")
-        return (f"{cls} ({kb}, levels {lv[0]})", why)
+        if cls == "outside point" and ("(2147483647," in why or "(-2147483648," in why):
+            cls = "outside point at the end of the int32 grid"
+        return (cls, why)
     return None
 
 
@@ -951,7 +959,7 @@ def search(ctx, seeds):
                 ctx.evaluations += 1
                 v = check_one(f, q, reader=rd)
                 if v:
-                    report(f, q, (v[0] + " [reader reused]", v[1]))
+                    report(f, q, (v[0], v[1] + " [reader reused for several queries]"))
     return failing
 
 
